@@ -33,6 +33,12 @@ def run_mtest(builddir: str, argv: T.List[str], simparams: T.Dict[str, T.Any],
     os.killpg = sim.killpg  # type: ignore[assignment]
     time.time = lambda: Sim.EPOCH0 + (sim.loop._now if sim.loop is not None else 0.0)  # type: ignore[assignment]
     random.seed(simparams.get('rand_seed', 0))
+    if simparams.get('tty'):
+        # pretend to be attached to a terminal: the console logger then runs its progress reporter
+        # (an asyncio task driven by one-second timers on the simulated clock)
+        import sys
+        sys.stdout.isatty = lambda: True        # type: ignore[method-assign]
+        os.get_terminal_size = lambda fd=1: os.terminal_size((simparams.get('cols', 100), 30))   # type: ignore[assignment,misc]
 
     outcome = 'returned'
     detail = ''
